@@ -452,8 +452,14 @@ def run(repo: Repo, rep: Report, tier: str) -> None:
             n10r += 1
             ok10 = f"isinstance({tov}, int)" in tcc and "not" in tcc
             rep.check(ok10, "C01-R10", f"{m10r.short}: copy-count mode only when the output value stays a signal",
-                      "copy_count_from_input and not isinstance(<inlined output value>, int)" if ok10 else
+                      "copy_count_from_input and not <reference inlined as a literal>" if ok10 else
                       f"copy_count_from_input={tcc[:60]} although output_value={tov[:60]} can be an inlined literal: the decider then copies a signal that is not on its input and outputs nothing", m10r.loc(call10))
+            # ... and only then: a literal in the IR together with the flag is the lowering's own spelling of "copy every input signal" (`(b > 4) : b` is
+            # `then 1 COPY` on signal-each), so the mode may be dropped only when the IR value was a reference
+            ok10b = "isinstance(op.output_value, SignalRef)" in tcc
+            rep.check(ok10b, "C01-R10", f"{m10r.short}: copy-count mode is dropped only for a reference that was inlined, never for the IR's own literal",
+                      "the switch-off also requires isinstance(op.output_value, SignalRef)" if ok10b else
+                      f"copy_count_from_input={tcc[:80]}: every literal output value loses the mode, so the bundle filter `(b > 4) : b` (IR: `then 1 COPY`) outputs 1 per kept member instead of the member's value", m10r.loc(call10))
     rep.floor("C01-R10", "decider placements with an inlinable output value", n10r, 2)
 
     # ---------------- R11 --------------------------------------------------------------
